@@ -188,3 +188,110 @@ def track_block(body, env, tracked, on_eval=None, hook=None):
                 if isinstance(n, ast.Assign) and any(unparse(t) in tracked for t in n.targets):
                     raise Unknown('tracked variable assigned inside a compound statement: %s' % stmt_text(st))
     return None
+
+
+def explore(stmts, env, tracked, loops=None, budget=None):
+    """Path-forking abstract interpreter for a statement list, tracking only the `tracked` names.
+    Conditions that cannot be evaluated on env are forked (both branches explored) when their branches can
+    change a tracked name or return; otherwise they are skipped.  `loops` maps a for-loop's iterable text to
+    the abstract sequence of target bindings to iterate, e.g. {'texts': [{'level': 'fail'}, ...]}.
+    Returns a list of (env, outcome) with outcome in {'fall', 'return', 'raise'}; the returned value is in
+    env['<return>'] (Opaque() when not computable)."""
+    from .core import stmt_text
+    loops = loops or {}
+    budget = budget or [4000]
+
+    def relevant(node):
+        for n in ast.walk(node):
+            if isinstance(n, (ast.Return, ast.Raise)):
+                return True
+            if isinstance(n, (ast.Assign, ast.AugAssign, ast.AnnAssign)):
+                ts = n.targets if isinstance(n, ast.Assign) else [n.target]
+                for t in ts:
+                    for x in ast.walk(t):
+                        if isinstance(x, ast.Name) and x.id in tracked:
+                            return True
+        return False
+
+    def run(block, envs):
+        """envs: list of env dicts still falling through; returns (fall_envs, finished)"""
+        finished = []
+        for st in block:
+            nxt = []
+            for e in envs:
+                budget[0] -= 1
+                if budget[0] < 0:
+                    raise Unknown('path explosion in abstract exploration')
+                if e.get('<jump>'):
+                    nxt.append(e)
+                    continue
+                if isinstance(st, ast.If):
+                    try:
+                        c = ev(st.test, e)
+                        branches = [(st.body if c else st.orelse, e)]
+                    except Unknown:
+                        if relevant(st):
+                            branches = [(st.body, dict(e)), (st.orelse, dict(e))]
+                        else:
+                            branches = [([], e)]
+                    for b, e2 in branches:
+                        f, fin = run(b, [e2])
+                        nxt.extend(f)
+                        finished.extend(fin)
+                elif isinstance(st, ast.For):
+                    key = unparse(st.iter)
+                    if key in loops:
+                        cur = [e]
+                        broke = []
+                        for binding in loops[key]:
+                            step = []
+                            for e2 in cur:
+                                e3 = dict(e2)
+                                e3.update(binding)
+                                f, fin = run(st.body, [e3])
+                                finished.extend(fin)
+                                for e4 in f:
+                                    j = e4.pop('<jump>', None)
+                                    if j == 'break':
+                                        broke.append(e4)
+                                    else:
+                                        step.append(e4)
+                            cur = step
+                        cur = cur + broke
+                        for e2 in cur:
+                            e2['<loops_done>'] = e2.get('<loops_done>', ()) + (key,)
+                        nxt.extend(cur)
+                    elif relevant(st):
+                        raise Unknown('loop over %s changes a tracked name but no abstract sequence was supplied' % key)
+                    else:
+                        nxt.append(e)
+                elif isinstance(st, (ast.While, ast.Try)):
+                    if relevant(st):
+                        raise Unknown('tracked name changed inside %s' % stmt_text(st))
+                    nxt.append(e)
+                elif isinstance(st, ast.With):
+                    f, fin = run(st.body, [e])
+                    nxt.extend(f)
+                    finished.extend(fin)
+                elif isinstance(st, ast.Return):
+                    try:
+                        e['<return>'] = ev(st.value, e) if st.value is not None else None
+                    except Unknown:
+                        e['<return>'] = Opaque()
+                    finished.append((e, 'return'))
+                elif isinstance(st, ast.Raise):
+                    finished.append((e, 'raise'))
+                elif isinstance(st, (ast.Continue, ast.Break)):
+                    e['<jump>'] = 'continue' if isinstance(st, ast.Continue) else 'break'
+                    nxt.append(e)      # approximated: treated by the caller's loop as end of this iteration
+                elif isinstance(st, (ast.Assign, ast.AnnAssign, ast.AugAssign)):
+                    track_block([st], e, tracked)
+                    nxt.append(e)
+                else:
+                    nxt.append(e)
+            envs = nxt
+            if not envs:
+                break
+        return envs, finished
+    fall, fin = run(stmts, [dict(env)])
+    return [(e, 'fall') for e in fall] + fin
